@@ -1,6 +1,7 @@
 package trzsz
 
 import (
+	"bytes"
 	"fmt"
 	"os"
 	"path/filepath"
@@ -143,4 +144,79 @@ func vRawPrefixFor(raw []byte, want int, escapeAll bool) int {
 		}
 	}
 	return len(raw)
+}
+
+// vC01DupNames: an upload with -y whose selection holds the same name twice (from two directories): both cannot
+// be at the destination afterwards, so the transfer is refused and nothing is written - or, should it ever be
+// accepted, both contents must exist at the destination. Reporting success with one of them gone is the failure.
+func vC01DupNames(rc *runCtx) {
+	tp := rc.tape
+	cfg := vDrawConfig(tp, false)
+	cfg.upload, cfg.overwrite, cfg.timeout, cfg.trigVersion = true, true, 20, ""
+	src := filepath.Join(rc.dir, "src")
+	dst := filepath.Join(rc.dir, "dst")
+	os.MkdirAll(dst, 0755)
+	name := vNamePool[tp.Draw("dup.name", len(vNamePool))]
+	var paths []string
+	var contents [][]byte
+	for i := 0; i < 2; i++ {
+		d := filepath.Join(src, fmt.Sprintf("20%02d", 23+i))
+		os.MkdirAll(d, 0755)
+		b, _ := vGenContent(tp, 1+tp.Draw("dup.size", 20000))
+		b = append(b, byte('A'+i))
+		vWriteFile(filepath.Join(d, name), b)
+		paths = append(paths, filepath.Join(d, name))
+		contents = append(contents, b)
+	}
+	if tp.Bool("dup.other", 500) {
+		p := filepath.Join(src, "other.bin")
+		b, _ := vGenContent(tp, 1+tp.Draw("dup.othersize", 5000))
+		vWriteFile(p, b)
+		paths = append([]string{p}, paths...)
+	}
+	if tp.Bool("dup.prior", 300) {
+		vWriteFile(filepath.Join(dst, name), []byte("an older version at the destination"))
+	}
+	o := cfg.opts()
+	o.srcPaths, o.dstDir = paths, dst
+	o.profile = vDrawProfile(tp, cfg.timeout)
+	rc.res.ClassKey = "dupnames " + cfg.key()
+	rc.res.Scenario["config"] = cfg.key()
+	rc.res.Scenario["flags"] = strings.Join(o.flags, " ")
+	before := vSnapshot(dst)
+	x := newXferWorld(rc, o)
+	x.start()
+	rc.w.Run(x.finished)
+	rep := x.report()
+	rc.res.Scenario["client_fail"] = vClip(rep.clientFail, 120)
+	if rc.w.StepCap {
+		return
+	}
+	if !rep.serverExited || x.filter.IsTransferringFiles() {
+		rc.violate("hang", "C01:dupnames-hang", "an upload with -y of a selection holding %q twice never ended", name)
+		return
+	}
+	after := vSnapshot(dst)
+	if rep.clientOK || rep.serverOK {
+		for i, c := range contents {
+			found := false
+			for _, k := range after.keys() {
+				if b, err := os.ReadFile(filepath.Join(dst, k)); err == nil && bytes.Equal(b, c) {
+					found = true
+				}
+			}
+			if !found {
+				rc.violate("content", "C01:dupnames-lost", "an upload with -y of a selection holding %q twice was reported as saved (client ok=%v server ok=%v), but the content of %s is nowhere at the destination", name, rep.clientOK, rep.serverOK, paths[len(paths)-2+i])
+				return
+			}
+		}
+	} else {
+		for _, k := range before.keys() {
+			if a, ok := after[k]; !ok || !before[k].untouched(a) {
+				rc.violate("content", "C01:dupnames-touched", "the refused upload (duplicate name %q) changed %q at the destination", name, k)
+				return
+			}
+		}
+	}
+	rc.res.Nontrivial = true
 }
